@@ -1,4 +1,6 @@
 """C12 -- a signal reaches exactly the matching callbacks (DESIGN.md section 3, C12)."""
+import functools
+
 from hypothesis import strategies as st
 
 from .. import refcodec as R
@@ -42,6 +44,14 @@ ARGVALS = ['x', 'y', '', '/a/', '/a/b', '/a/b/', '/a/bc', '/a', 'xy', '1', '2', 
            'C:\\t\\new', 'col1\tcol2', 'k=v',     # backslashes, a tab, an equals sign: literal inside the quotes of a rule
            "it's", 'a,b', "'", "say 'hi', ok"]       # apostrophes (escaped as '\\'' in a rule) and commas (literal inside quotes)
 TYPES = ['signal', 'method_call', 'method_return', 'error']
+
+
+class _CallableObject:
+    def __init__(self, fn):
+        self.fn = fn
+
+    def __call__(self, m):
+        return self.fn(m)
 
 
 class _Subscriber:
@@ -165,6 +175,10 @@ def run_router(case):
                     return _cb_result(idx)
                 if idx % 3 == 2:
                     cb = _Subscriber(cb).on_message      # a bound method of an object only the subscription keeps alive
+                elif idx % 3 == 1:
+                    cb = functools.partial(cb)           # a callable without __name__ / __qualname__
+                elif r.get('raises'):
+                    cb = _CallableObject(cb)             # an instance with __call__ (no __name__ either)
                 kw = _router_kwargs(r)
                 active[idx] = rt.addMatch(cb, **kw)
                 _reuse_lists(kw, idx)
